@@ -6,7 +6,7 @@ class C06(FloorProp):
     profile = 'c06'
     crash_every = 3
     design_ref = 'DESIGN.md section 4 / C06'
-    budgets = {'quick': 8000, 'thorough': 300000}
+    budgets = {'quick': 40000, 'thorough': 800000}
 
 
 PROP = C06()
